@@ -1009,16 +1009,9 @@ def check_inplace(case):
                 qd = dates[op["i"]]
             else:
                 qd = dates[op["i"]] + __import__("datetime").timedelta(seconds=case["h"] * op["f"])
-            if other is not None:
-                ro = other.interpolate(qd)
-                go = vals_of(ro)
-                if ro.form.name != form or ro.frame.name != frame:
-                    raise Violation("metadata-frame-form", f"step {step}: the ephemeris sharing the points answers in "
-                                    f"{ro.frame.name}/{ro.form.name}, its points are in {frame}/{form}")
-                if kind == "node" and not np.array_equal(go, ys[op["i"]]):
-                    raise Violation("stale-table-shared", f"step {step}, after {' > '.join(seen)}: the ephemeris sharing the "
-                                    f"points returns {go.tolist()} at the date of point {op['i']}, which holds "
-                                    f"{ys[op['i']].tolist()}")
+            # `other` holds the same point objects; what IT answers after its points were converted behind its
+            # back through `eph` is not asked (an ephemeris does not claim to follow changes made to its points by
+            # another owner - DESIGN section 7); it only has to leave `eph` undisturbed
             res = eph.interpolate(qd)
             if res.form.name != form or res.frame.name != frame:
                 raise Violation("metadata-frame-form", f"step {step}: result in {res.frame.name}/{res.form.name}, the "
@@ -1232,15 +1225,7 @@ def linear_node_rounding(facet, case, kind, msg, data):
     return facet == "node_exact" and kind == "node-linear" and case.get("method") == "linear"
 
 
-def shared_points_stale(facet, case, kind, msg, data):
-    """Two ephemerides holding the same point objects (one built from the other's points, or a shallow
-    copy): a form / frame change in place through one of them is not seen by the interpolator the other
-    had already built (it keeps a copy of the values)."""
-    return (facet == "convert_in_place" and kind == "stale-table-shared"
-            and any(o["op"] in ("share_new", "share_new_used", "share_copy") for o in case["ops"]))
-
-
-FINDINGS = {"C09/linear-node-rounding": linear_node_rounding, "C09/shared-points-stale": shared_points_stale}
+FINDINGS = {"C09/linear-node-rounding": linear_node_rounding}
 
 FACETS = [
     Facet("node_exact", node_case, check_node_exact, setup=_setup,
